@@ -400,6 +400,12 @@ def c13_jobs(rnd, good, n):
     for txt in ODD:
         jobs.append(('A = EEMSRead(InFileName = d.csv, InFieldName = a)\nS = Sum(InFieldNames = %s)' % txt, "?", "odd-expression", {}))
         jobs.append(('A = EEMSRead(InFileName = d.csv, InFieldName = a, Metadata = %s)' % txt, "?", "odd-expression", {}))
+    # the EEMS 2.0 form: the result is named by NewFieldName / InFieldName, whatever those arguments hold
+    for txt in ODD + ["2020", "1.5", "[a, b]", "[k: v]", "[]", '"two words"', "True"]:
+        jobs.append(('READ(InFileName = d.csv, InFieldName = %s)' % txt, "?", "odd-expression", {}))
+        jobs.append(('READ(InFileName = d.csv, InFieldName = a, NewFieldName = %s)\nCOPYFIELD(InFieldName = a, NewFieldName = B)' % txt, "?", "odd-expression", {}))
+        jobs.append(('READ(InFileName = d.csv, InFieldName = a)\nSUM(InFieldNames = [a], NewFieldName = %s)' % txt, "?", "odd-expression", {}))
+    jobs.append(('SUM(InFieldNames = [a])', "?", "odd-expression", {}))
     for csvtxt in CSVS:
         jobs.append((CSV_MODEL, "?", "csv-fault", {"csv": csvtxt}))
     return jobs
